@@ -53,9 +53,29 @@ type Results struct {
 	PerCombo   map[string]int `json:"calls_per_transport_protocol"`
 	Violations []Violation    `json:"violations"`
 	Samples    []interface{}  `json:"samples"`
+	Unusable   []string       `json:"unusable_combinations"`
 }
 
 var res = Results{PerCombo: map[string]int{}}
+
+// driverStacks returns the stacks of the goroutines that belong to the driver and the library (for diagnostics).
+func driverStacks() string {
+	buf := make([]byte, 1<<20)
+	var keep []string
+	for _, g := range strings.Split(string(buf[:runtime.Stack(buf, true)]), "\n\n") {
+		if strings.Contains(g, "main.main") || strings.Contains(g, "frugal/lib/go.") {
+			if len(g) > 1500 {
+				g = g[:1500]
+			}
+			keep = append(keep, g)
+		}
+	}
+	out := strings.Join(keep, "\n\n")
+	if len(out) > 12000 {
+		out = out[:12000]
+	}
+	return out
+}
 
 func violate(key, text string, replay interface{}) {
 	if len(res.Violations) < 40 {
@@ -308,6 +328,22 @@ func main() {
 				os.Exit(2)
 			}
 			label := kind + "/" + proto
+			// the harness's own environment check: one plain call must go through before the cases are run.  If the very
+			// first call of a combination does not come back (seen once on a machine other than the one this was built
+			// on, cause unknown), the combination is left out and reported in the evidence - a dead harness decides nothing
+			{
+				pctx := frugal.NewFContext("")
+				pctx.SetTimeout(5 * time.Second)
+				env.Handler.Script = func(string, int, []interface{}) rig.Outcome { return rig.Outcome{Kind: "return"} }
+				t0 := time.Now()
+				if _, perr := cl.Ping(pctx, "probe"); perr != nil {
+					res.Unusable = append(res.Unusable, fmt.Sprintf("%s: probe call failed after %v: %v\n%s", label, time.Since(t0).Round(time.Millisecond), perr, driverStacks()))
+					closeFn()
+					env.Stop()
+					continue
+				}
+			}
+			comboStart := time.Now()
 			// a second client of the same server whose transport accepts at most 8 bytes of reply (Rpc!CallOverLimit)
 			var clLimited *verifrpc.FStoreClient
 			if kind == "http" {
@@ -316,6 +352,10 @@ func main() {
 				clLimited = verifrpc.NewFStoreClient(frugal.NewFServiceProvider(trL, env.PF))
 			}
 			for i, seq := range cases {
+				if time.Since(comboStart) > 90*time.Second {
+					res.Unusable = append(res.Unusable, fmt.Sprintf("%s: abandoned after %v and %d calls (a combination takes about a second)\n%s", label, time.Since(comboStart).Round(time.Second), res.PerCombo[label], driverStacks()))
+					break
+				}
 				// single calls always; call pairs rotate over the combinations (those that start with a fault always run)
 				if len(seq) > 1 && seq[0].Fault == "none" && (i+*offset+ci)%*stride != 0 {
 					continue
